@@ -132,6 +132,14 @@ class ProgHarness(Harness):
         assert info.get_size("int") == M.size("int"), "data model: int"
         assert max(info.get_size("int"), info.get_size("long")) == M.size("long"), "data model: long"
         assert info.get_size("ptr") == M.ptr_bytes, "data model: ptr"
+        # alignments are the target ABI's choice: the model's table must be the one the front end works with
+        from ppci.lang.c import CContext, COptions
+        from ppci.lang.c.nodes.types import BasicType
+        ctx = CContext(COptions(), info)
+        for t, tid in (("char", BasicType.CHAR), ("short", BasicType.SHORT), ("int", BasicType.INT), ("long", BasicType.LONG),
+                       ("llong", BasicType.LONGLONG)):
+            assert ctx.type_size_map[tid] == (M.size(t), M.align(t)), f"data model: size/alignment of {t}"
+        assert info.get_alignment("ptr") == M.align("ptr"), "data model: ptr alignment"
 
     def inputs(self, mk):
         st, m = self.module()
@@ -371,6 +379,6 @@ def jobs(tier, seed):
     specs = select(tier, seed)
     only = os.environ.get("VERIF_ONLY")
     if only:
-        specs = [s for s in specs if only in s[0] or only in _one_line(s[1]) or only in repr(s[3])]
+        specs = [s for s in specs if only in s[0] or only in _one_line(s[1]) or only in repr(s[3]) or only == "@" + s[2]]
     nb = 48 if tier == "quick" else 320
     return [("mk_batch", dict(specs=b, tag=f"#{i}")) for i, b in enumerate(batches(specs, nb))]
